@@ -3,6 +3,7 @@
 import abc
 import calendar
 import datetime
+import decimal
 import enum
 import struct
 
@@ -470,7 +471,7 @@ class ParserText(ParserBase):
         try:
             value = self._parsable[self._parsed_length:]
             date_time = dateutil.parser.parse(six.ensure_text(value, self._encoding))
-        except (ValueError, OverflowError) as e:
+        except (ValueError, OverflowError, decimal.InvalidOperation) as e:
             six.raise_from(InvalidValue(value, type(self), 'value'), e)
 
         self._parsed_values[name] = date_time
